@@ -66,12 +66,12 @@ class GroupView:
         return exp, sites
 
 
-def versions_at(marks, step_what):
+def versions_at(marks, edited):
     """files (with marks) of every group in effect at the step"""
     res = []
     for gidx, gm in enumerate(marks):
         files = dict(gm["v0"])
-        if step_what != "initial" and "v1" in gm:
+        if edited and "v1" in gm:
             files.update(gm["v1"])
         res.append(GroupView(gidx, gm, files))
     return res
@@ -389,7 +389,7 @@ def evaluate(res0, tag, projects_path, out_path, mbin, d, stats, open_kf):
             la, lb = [], []
             prev_sig = {}
             for st in o["steps"]:
-                gviews = versions_at(o["marks"], st["what"])
+                gviews = versions_at(o["marks"], st.get("edited", st["what"] != "initial"))
                 per = real_groups(st["real"], gviews)
                 ents = st["real"]["ents"]
                 tp = st["tp"]
@@ -400,7 +400,7 @@ def evaluate(res0, tag, projects_path, out_path, mbin, d, stats, open_kf):
                 ga, gb, nums_b, problems = [], [], {}, []
                 for gv in gviews:
                     sig = json.dumps([gv.files, sorted(gv.by_pos.items()), sorted((r["file"], r["line"], r["col"], r["id"]) for r in gv.refs)], sort_keys=True, default=str)
-                    analyzed = st["what"] != "edit" or prev_sig.get(gv.gidx) != sig
+                    analyzed = st["what"] in ("initial", "flip") or prev_sig.get(gv.gidx) != sig
                     prev_sig[gv.gidx] = sig
                     ga.append(build_case_a(gv, analyzed))
                     cb, nums = build_case_b(gv, per.get(gv.gidx, []), ents, analyzed, problems)
@@ -640,7 +640,7 @@ def main(tier, replay=None):
         corpus = os.path.join(VERIF, "corpus", "C19.cases")
         if os.path.exists(corpus):
             stream("corpus", corpus)
-        chunks, per_chunk, gpp = (1, 14, 24) if tier == "quick" else (20, 14, 24)
+        chunks, per_chunk, gpp = (1, 12, 24) if tier == "quick" else (20, 14, 24)
         site_counts = collections.Counter()
         for ch in range(chunks):
             gen_path = os.path.join(d, "gen.jsonl")
